@@ -129,10 +129,52 @@ def program_of(shapes, with_sub):
     return prog
 
 
+def fixed_program(i):
+    """programs outside the shape grammar: dead code behind END (with a string literal of its own), error handling
+    that is armed but never needed, END inside a single-line IF"""
+    def s(t):
+        return {'k': 'str', 'b': [ord(c) for c in t]}
+
+    def num(v):
+        return {'k': 'num', 't': 'I', 'v': v}
+
+    def var(n, t='I'):
+        return {'k': 'lv', 'n': n, 'ix': [], 'fl': [], 't': t}
+
+    def pr(*es):
+        items = []
+        for k, e in enumerate(es):
+            if k:
+                items.append({'k': 'sep', 's': ';'})
+            items.append({'k': 'e', 'e': e})
+        return {'k': 'print', 'items': items}
+    if i == 0:
+        main = [{'k': 'let', 'lv': var('g$', 'T'), 'e': s('hello')}, pr(var('g$', 'T')), {'k': 'end'}, pr(s('never printed'))]
+    elif i == 1:
+        main = [{'k': 'onerror', 'mode': 'next'}, pr(s('a')), {'k': 'let', 'lv': var('x%'), 'e': num(5)}, pr(var('x%'))]
+    elif i == 2:
+        main = [{'k': 'onerror', 'mode': 'goto', 'label': 'hnd'}, pr(s('b')), {'k': 'end'}, {'k': 'label', 'n': 'hnd'}, pr(s('h')),
+                {'k': 'resume', 'next': True}]
+    elif i == 3:
+        main = [{'k': 'let', 'lv': var('x%'), 'e': num(1)},
+                {'k': 'if', 'line': True, 'arms': [{'c': {'k': 'bin', 'o': 'eq', 'l': var('x%'), 'r': num(1)}, 'body': [pr(s('t')), {'k': 'end'}]}], 'els': [], 'hasels': False},
+                pr(s('dead too'))]
+    else:
+        main = [{'k': 'gosub', 'label': 'gs'}, pr(s('back')), {'k': 'end'}, {'k': 'label', 'n': 'gs'}, pr(s('in')), {'k': 'return'}, pr(s('after return'))]
+    return {'types': [], 'consts': [], 'shared': [], 'main': gen.flatten(main), 'procs': []}
+
+
+NFIXED = 5
+
+
 def _job(job):
     from lib import rec, qb
     kind, payload = job
-    if kind == 'shape':
+    if kind == 'fixed':
+        prog = fixed_program(payload)
+        text = gen.Unparser(prog).text()
+        ast = gen.strip_for_tlc(prog)
+    elif kind == 'shape':
         prog = program_of(payload['shapes'], payload['sub'])
         text = gen.Unparser(prog).text()
         ast = gen.strip_for_tlc(prog)
@@ -192,6 +234,8 @@ def _run(ctx, work):
         jobs.append(('shape', {'shapes': allshapes[i:i + B], 'sub': (i // B) % 3 == 0}))
     for i in range(ctx.pick(25, 1200)):
         jobs.append(('gen', {'seed': ctx.seed * 100000 + 30000 + i}))
+    for i in range(NFIXED):
+        jobs.append(('fixed', i))
     res = par.pmap(_job, jobs, chunk=2)
     cases = []
     for rr in res:
